@@ -65,6 +65,11 @@ def lattice(spec, reals, rng):
     if typ == 's':
         for n in range(0, aw + 2): vals.append(('ABCDEFGHIJKLMNOPQRSTUVWXYZ' * 4)[:n])
         if aw >= 2: vals += ['a b'[:aw], ' ' + 'x' * (aw - 1)]
+        # names are arbitrary printable text: look-alikes of special values, numbers, format directives, blanks inside
+        for t in TRICKY:
+            for nm in (t, (t + 'xy z' * 30)[:aw], ('q' + t + 'nan inf None' * 10)[:aw]):
+                if len(nm) <= aw and nm not in vals: vals.append(nm)
+        for _ in range(3): vals.append(tricky_name(rng, aw))
     elif typ == 'd':
         for k in range(0, aw + 2):
             vals += [10 ** k - 1, 10 ** k, -(10 ** max(k - 1, 0)), -(10 ** k) + 1]
@@ -72,6 +77,18 @@ def lattice(spec, reals, rng):
     elif typ in 'ef':
         vals += reals + [1, -7, 12345]
     return vals
+
+
+TRICKY = ['nan', 'NaN', 'NAN', 'inf', '-inf', 'Infinity', 'None', 'null', 'True', 'e+', 'E-05', '1e5', '1.5', '-1', '0', '00', '+',
+          '  ', 'a b', '%s', '%d', '%5.2f', '{}', '{0}', '\\n', '\\', '*', '#', "'", '"', ',', ';', ':', '$', '~', 'd0', 'D+3', '.']
+
+
+def tricky_name(rng, aw, lead=None):
+    """printable ASCII name of at most aw characters built from look-alike tokens and random characters"""
+    out = lead or ''
+    while len(out) < aw:
+        out += rng.choice(TRICKY) if rng.random() < 0.7 else chr(rng.randint(32, 126))
+    return out[:aw if rng.random() < 0.7 else rng.randint(0, aw)]
 
 
 def fmt_text(spec, v):
@@ -327,6 +344,7 @@ finally:
 json.dump(out, sys.stdout)
 '''
 
+PLAIN = ('neutral', 'mixed', 'tricky-names')       # ASCII kinds: one multi-record file per table
 TABLE_ORDERS = [['t2data', 't2data_extra_precision', 't2incon', 'mulgrid'],
                 ['mulgrid', 't2incon', 't2data_extra_precision', 't2data']]
 LATIN1 = u'grèsüabcdefghijklmnopqrstuvwxyz' * 4          # 'grèsü...'
@@ -367,6 +385,15 @@ def file_cases(table, rng, thorough):
             if len(vals) > 1 and rng.random() < 0.5: vals[rng.randrange(len(vals))] = None
             out.append((rec, vals, 'mixed'))
         sidx = [i for i, s in enumerate(specs) if parse_spec(s)[2] == 's']
+        for rep, leads in enumerate((['nan', 'inf', 'None'], ['e+0', ' nan', '1e5'], ['banana', 'NaN', '%s'], [None])):
+            # ASCII names drawn from the whole printable alphabet; every record kind gets lowercase 'nan', 'inf', ... in every name field
+            if not sidx or (rep == 3 and not thorough): continue
+            vals = list(base)
+            for k, i in enumerate(sidx):
+                aw = abs(parse_spec(specs[i])[0]); lead = leads[k % len(leads)]
+                vals[i] = tricky_name(rng, aw, lead)[:aw] if lead is None or len(lead) <= aw else tricky_name(rng, aw)
+                if lead and len(lead) <= aw and lead not in vals[i]: vals[i] = (lead + vals[i])[:aw]
+            out.append((rec, vals, 'tricky-names'))
         if sidx:
             vals = list(base)
             for i in sidx: vals[i] = LATIN1[:abs(parse_spec(specs[i])[0])]
@@ -393,10 +420,10 @@ def value_line_cases(table, rng, thorough):
             if any(parse_spec(specs[j])[2] != typ for j in pos): return None, None       # one name, several types: leave absent
             if typ == 'd': cands, pre = ([0] if kind == 'zeros' else [0, 1, 7, -1]), 777
             elif typ in 'ef': cands, pre = ([0.0] if kind == 'zeros' else [0.0, -0.0, 2.5, -1.5, 0.5]), 777.5
-            else: cands, pre = (['q'] if kind == 'zeros' else ['q', 'Z']), 'zzz'
+            else: cands, pre = (['nan', 'q'] if kind == 'zeros' else ['q', 'Z', 'nan', 'inf', 'None', 'e+', ' a']), 'zzz'
             cands = [v for v in cands if all(writable(specs[j], v) for j in pos)]
             if not cands: return None, pre
-            return rng.choice(cands), pre
+            return (cands[0] if kind == 'zeros' else rng.choice(cands)), pre
         for kind in ['zeros', 'mixed'] + (['mixed'] * 2 if thorough else []):
             variable, prefill = {}, {}
             for nm in uniq:
@@ -504,10 +531,10 @@ def file_sweep(ctx, thorough=False):
         files, meta = [], []
         for t in order:
             cases = file_cases(tables[t], ctx.rng, thorough)
-            plain = [(rec, vals) for rec, vals, kind in cases if kind in ('neutral', 'mixed')]
+            plain = [(rec, vals) for rec, vals, kind in cases if kind in PLAIN]
             files.append({'table': t, 'cases': plain}); meta.append('ascii-multi-record')
             for rec, vals, kind in cases:
-                if kind in ('neutral', 'mixed'): continue
+                if kind in PLAIN: continue
                 files.append({'table': t, 'cases': [(rec, vals)]}); meta.append(kind)
             vl = value_line_cases(tables[t], ctx.rng, thorough)
             files.append({'table': t, 'vl': [(rec, var, pre) for rec, var, pre, kind in vl]}); meta.append('value-lines')
